@@ -40,7 +40,7 @@ TEMPLATES_THOROUGH = TEMPLATES_QUICK + [
 
 BOUNDS = {
     'quick': 'R1/R2: 1 file x 1 entry x {0,1,2} ranges, 1 file x 2 entries x 1 range, or 2 files x 1 entry x 1 range; path = one of %d templates with <=3 fully symbolic bytes (0x01-0x7f minus LF) plus concrete multi-byte scalars; hash = 2 symbolic printable non-space bytes; line numbers symbolic u32 <= 99 (one shape near u32::MAX); base sha 4 symbolic hex; R3: every text of <= 5 bytes over {\" SP - , 0 9 a LF CR TAB} and the same text followed by LF---LF{}; R4: remap of a 4-hex symbolic base with a symbolic hex target of length 0, 2, 4 or 8' % len(TEMPLATES_QUICK),
-    'thorough': 'as quick with %d path templates (<=4 symbolic bytes), <=3 ranges per entry, 2 files x 2 entries, three digit-length classes per number; R3 texts <= 7 bytes' % len(TEMPLATES_THOROUGH),
+    'thorough': 'as quick with %d path templates (<=4 symbolic bytes), <=3 ranges per entry, 2 files x 2 entries, three digit-length classes per number; R3 texts <= 6 bytes' % len(TEMPLATES_THOROUGH),
 }
 OUTSIDE = 'paths containing LF or NUL; hashes containing whitespace (the standard requires hex); prompt records are opaque to the codec model (serde_json is trusted for the JSON half); logs with more than 2 files / 3 ranges; line numbers with 3-9 digits'
 ASSUMPTIONS = [
@@ -67,7 +67,7 @@ def plan(tier, seed):
     if tier != 'quick':
         tasks.append(('roundtrip', {'files': [{'t': 1, 'entries': [1, 2]}, {'t': 2, 'entries': [2, 1]}], 'big': False}))
         tasks.append(('roundtrip', {'files': [{'t': 0, 'entries': [3]}], 'big': True}))
-    n3 = 5 if tier == 'quick' else 7
+    n3 = 5 if tier == 'quick' else 6
     for n in range(0, n3 + 1):
         # long texts are split by their first byte so that the pool can share them
         firsts = [None] if n < 6 else list(R3_ALPHABET)
